@@ -55,7 +55,7 @@ def seed_from_env(default=20260921):
 
 
 def workdir(pid, tier):
-    d = os.path.join(VERIF, 'work', '%s_%s' % (pid, tier))
+    d = os.path.join(VERIF, 'work', '%s_%s%s' % (pid, tier, os.environ.get('VERIF_WORK_TAG', '')))
     shutil.rmtree(d, ignore_errors=True)
     os.makedirs(d, exist_ok=True)
     return d
@@ -465,7 +465,7 @@ def write_replay(pid, obj):
 
 
 def write_evidence(pid, ev):
-    d = os.path.join(VERIF, 'evidence')
+    d = os.environ.get('VERIF_EVIDENCE_DIR') or os.path.join(VERIF, 'evidence')
     os.makedirs(d, exist_ok=True)
     with open(os.path.join(d, '%s.json' % pid), 'w') as f:
         json.dump(ev, f, indent=1, default=str)
